@@ -601,7 +601,7 @@ pub fn run(ctx: &Ctx) -> i32 {
     for a in (0..(1u32 << 24)).step_by(4099) {
         stats.nontrivial_keys.insert(key_hash(&("class", a)));
     }
-    let rule = "cases = (1) every address 0..2^24 through Bus::read / Bus::write (accessible iff inside one of the statement's five ranges; inaccessible -> both fail and nothing changes), boundary and strided addresses up to 2^32-1 and aliases of every region with bits 24-31 set; (2) three passes that write an independent 8-bit hash of its address to every plain storage byte (everything accessible except port DDR/DR) and read all of them back afterwards (lost or aliased storage shows up as a mismatch); (3) proptest-generated histories of up to 60 byte/word/long loads and stores executed as real MOV @aa:24 instructions, addresses weighted to +/-6 of all ten region edges and to overlapping extents, against a byte-map model (big-endian composition, failing accesses change nothing outside their own extent, final memory == model). Histories also interleave instruction fetches (1 op in 7): from an inaccessible or >= 2^24 address the fetch must fail, change no register and write nothing - and everything after it must still work; from an accessible word the fetch must see the MOV.W R0,R0 that the data path stored there just before. Non-trivial (histories) = contains a read overlapping an earlier write of a different extent or an access within 4 bytes of a region edge; distinct by the op sequence; the exhaustive parts are counted by a strided subset of their addresses.";
+    let rule = "cases = (1) every address 0..2^24 through Bus::read / Bus::write (accessible iff inside one of the statement's five ranges; inaccessible -> both fail and nothing changes), boundary and strided addresses up to 2^32-1 and aliases of every region with bits 24-31 set; (2) three passes that write an independent 8-bit hash of its address to every plain storage byte (everything accessible except port DDR/DR) and read all of them back afterwards (lost or aliased storage shows up as a mismatch); (3) proptest-generated histories of up to 60 byte/word/long loads and stores executed as real MOV @aa:24 instructions, addresses weighted to +/-6 of all ten region edges and to overlapping extents, against a byte-map model (big-endian composition, failing accesses change nothing outside their own extent, final memory == model). Histories also interleave instruction fetches (1 op in 7): from an inaccessible or >= 2^24 address the fetch must fail, change no register and write nothing - and everything after it must still work; from an accessible word the fetch must see the MOV.W R0,R0 that the data path stored there just before. Non-trivial (histories) = contains a read overlapping an earlier write of a different extent or an access within 4 bytes of a region edge; distinct by the op sequence; the exhaustive parts are counted by a strided subset of their addresses. Histories also contain ticks (time passes with timer 0 counting, or - quiet ticks - without anything being written: with no clock selected the counter and its flags are plain storage) and addresses of plain locations that mirror owned registers (same offset in the other register block, same low 8/16/20 bits in RAM / DRAM).";
     let mut extra = Map::new();
     extra.insert("masked_details".into(), json!(["whether the accessible leading bytes of a word/long store that runs off a region are written (the statement does not demand atomicity)"]));
     if let Some(f) = setup_panic_failure() {
